@@ -5,6 +5,7 @@
 From Coq Require Import List NArith Bool String.
 From Snow Require Import Lib.Wire Model.SessDesc Proofs.SessDescProofs.
 From Snow Require Import Model.IpClass Model.SdpStrip Proofs.SdpStripProofs.
+From Snow Require Import Model.SessDescPeer Proofs.SessDescPeerProofs Model.SessDescCallers Proofs.SessDescCallersProofs.
 Import ListNotations.
 Open Scope N_scope.
 
@@ -97,4 +98,131 @@ Example C13_peer_addr_nonvacuous :
   remote_ip (Some [[mkAttr 0 (Cand Host (Some [10;0;0;1])); mkAttr 1 (Cand Srflx (Some [1;2;3;4]))]]) [] = Some [1;2;3;4]
   /\ remote_ip (Some [[mkAttr 0 (Cand Host (Some [10;0;0;1]))]]) [None; Some [8;8;8;8]] = Some [8;8;8;8]
   /\ remote_ip None [Some [8;8;8;8]] = None.
+Proof. repeat split; reflexivity. Qed.
+
+(* ------------------------------------------------------------------------------------------------
+   remoteIPFromSDP at the granularity at which the Go code can panic (Model/SessDescPeer.v): every
+   partial operation of the function - m.Attributes on a media pointer, c.Address() on the candidate
+   interface, m[1] on a submatch slice - is a step that yields [PPanic].  For EVERY input the libraries
+   can hand over ([lib_contract]: no nil media pointer, a candidate whenever no error, 1+2 strings per
+   match; each clause is observed by the driver on every text it runs) no step panics, the result is nil
+   or an address, and an address is never local, unspecified or loopback. *)
+Theorem C13_peer_addr_never_panics : forall (parsed : option (list pmedia)) (caps : list submatch),
+  lib_contract parsed caps = true ->
+  (forall w, remote_ip_code parsed caps <> PPanic w)
+  /\ (remote_ip_code parsed caps = PVal None
+      \/ exists ip, remote_ip_code parsed caps = PVal (Some ip)
+            /\ is_local ip = false /\ is_unspecified ip = false /\ is_loopback ip = false).
+Proof.
+  intros parsed caps H. split; [apply (remote_ip_code_never_panics parsed caps H)|apply (remote_ip_code_total parsed caps H)].
+Qed.
+
+Example C13_peer_addr_never_panics_nonvacuous :
+  let parsed := Some [Some [PCand (mkUcand None true); POther; PCand (mkUcand (Some (Host, Some [10;0;0;1])) false)];
+                      Some [PCand (mkUcand (Some (Srflx, None)) false)]] in
+  let caps := [SNil; SSlice [None; Some [32;1;13;184;0;0;0;0;0;0;0;0;0;0;0;1]; None]] in
+  lib_contract parsed caps = true
+  /\ remote_ip_code parsed caps = PVal (Some [32;1;13;184;0;0;0;0;0;0;0;0;0;0;0;1]).
+Proof. split; reflexivity. Qed.
+
+(* the checks in the code are the reason: drop `if err == nil` or `if m != nil` and an input allowed by
+   the contract panics, which the code as written answers with nil *)
+Theorem C13_peer_addr_checks_needed :
+  (exists parsed caps, lib_contract parsed caps = true
+      /\ remote_ip_g (mkGuards false true) parsed caps = PPanic WNilCandidate /\ remote_ip_code parsed caps = PVal None)
+  /\ (exists parsed caps, lib_contract parsed caps = true
+      /\ remote_ip_g (mkGuards true false) parsed caps = PPanic WIndex /\ remote_ip_code parsed caps = PVal None).
+Proof.
+  split.
+  - exists (Some [Some [PCand (mkUcand None true)]]), []. exact err_check_needed.
+  - exists (Some []), [SNil]. exact match_check_needed.
+Qed.
+
+(* what is NOT defended by the code but promised by the libraries (each clause of the contract is needed) *)
+Theorem C13_peer_addr_contract_needed :
+  remote_ip_code (Some [None]) [] = PPanic WNilMedia
+  /\ remote_ip_code (Some [Some [PCand (mkUcand None false)]]) [] = PPanic WNilCandidate
+  /\ remote_ip_code (Some []) [SSlice [None]] = PPanic WIndex.
+Proof. exact contract_needed. Qed.
+
+(* the fine model computes the coarse one of C13_peer_addr_total *)
+Theorem C13_peer_addr_refines : forall (parsed : option (list pmedia)) (caps : list submatch),
+  lib_contract parsed caps = true ->
+  remote_ip_code parsed caps = PVal (remote_ip (erase parsed) (map erase_cap caps)).
+Proof. exact remote_ip_code_refines. Qed.
+
+(* webRTCConn.RemoteAddr dereferences pc.RemoteDescription(): safe given a remote description (the only
+   call is from the OnDataChannel callback, which cannot fire before SetRemoteDescription succeeded) *)
+Theorem C13_remote_addr : forall (parsed : option (list pmedia)) (caps : list submatch),
+  lib_contract parsed caps = true -> exists ip, remote_addr (Some (parsed, caps)) = AVal ip.
+Proof. exact remote_addr_safe. Qed.
+
+(* ------------------------------------------------------------------------------------------------
+   The callers on the untrusted path (Model/SessDescCallers.v), each as decode result -> branches over
+   the Go pair (ptr, err): "no remote party can terminate a client or proxy process with a crafted
+   message" - whatever the exchange, the outer decoder and encoding/json deliver, no caller panics, and
+   a description is dereferenced (handed to pion) exactly when the deserialiser accepted the message. *)
+
+(* proxy, NAT probe answer (remote party: the probe server) *)
+Theorem C13_natprobe_caller : forall (post_ok : bool) (outer : option (option json)),
+  natprobe_code post_ok outer <> CPanic
+  /\ (forall d, natprobe_code post_ok outer = CRet (Some d) <->
+                 post_ok = true /\ exists j, outer = Some j /\ deserialize j = Ok d)
+  /\ (natprobe_code post_ok outer = CRet None <->
+        post_ok = false \/ outer = None \/ exists j e, outer = Some j /\ deserialize j = Err e).
+Proof.
+  intros post_ok outer. split; [apply natprobe_code_never_panics|].
+  split; [intros d; apply natprobe_code_uses|apply natprobe_code_returns].
+Qed.
+
+(* the `return` after the failed deserialisation is what protects `*answer`: without it every rejected
+   answer - starting with one that is not JSON - crashes the proxy *)
+Theorem C13_natprobe_return_needed : forall (j : option json) (e : derr),
+  deserialize j = Err e -> natprobe false deserialize true (Some j) = CPanic.
+Proof. exact natprobe_lost_return_panics. Qed.
+
+Example C13_natprobe_return_needed_nonvacuous :
+  deserialize None = Err EJson /\ natprobe false deserialize true (Some None) = CPanic
+  /\ natprobe_code true (Some None) = CRet None
+  /\ natprobe true deserialize_v0 true (Some (Some (JObj [(bs "type", JNum (bs "1")); (bs "sdp", JStr (bs "x"))]))) = CPanic.
+Proof. repeat split; reflexivity. Qed.
+
+(* proxy, offer relayed by the broker (remote party: the client): pollOffer over any sequence of broker
+   answers, then runSession *)
+Theorem C13_polloffer_caller : forall (rs : list presp) (relay_ok : bool),
+  (exists p, poll_offer_code rs = Some p)
+  /\ (forall d, poll_offer_code rs = Some (Some d) <->
+                 exists n j rest, rs = repeat PollNoMatch n ++ PollOffer j :: rest /\ deserialize j = Ok d)
+  /\ run_session_code rs relay_ok <> CPanic
+  /\ (forall d, run_session_code rs relay_ok = CRet (Some d) <-> relay_ok = true /\ poll_offer_code rs = Some (Some d)).
+Proof.
+  intros rs relay_ok. split; [apply poll_offer_code_total|]. split; [intros d; apply poll_offer_code_spec|].
+  split; [apply run_session_code_never_panics|intros d; apply run_session_code_uses].
+Qed.
+
+Example C13_polloffer_caller_nonvacuous :
+  let good := Some (JObj [(bs "type", JStr (bs "offer")); (bs "sdp", JStr (bs "v=0"))]) in
+  poll_offer_code [PollNoMatch; PollNoMatch; PollOffer good; PollBad] = Some (Some (mkDesc TOffer (bs "v=0")))
+  /\ poll_offer_code [PollNoMatch; PollOffer (Some JNull)] = Some None
+  /\ run_session_code [PollOffer good] true = CRet (Some (mkDesc TOffer (bs "v=0")))
+  /\ run_session true false deserialize [PollOffer None] true = CPanic.
+Proof. repeat split; reflexivity. Qed.
+
+(* client, answer relayed by the broker (remote party: the proxy): Negotiate never returns (nil, nil),
+   connect never dereferences a nil answer *)
+Theorem C13_negotiate_caller : forall r : cresp,
+  ((exists d, negotiate_code r = Some (Some d, false)) \/ negotiate_code r = Some (None, true))
+  /\ (forall d, negotiate_code r = Some (Some d, false) <-> exists j, r = RespAnswer j /\ deserialize j = Ok d)
+  /\ connect_code r <> CPanic
+  /\ (forall d, connect_code r = CRet (Some d) <-> exists j, r = RespAnswer j /\ deserialize j = Ok d).
+Proof.
+  intros r. split; [apply negotiate_code_coherent|]. split; [intros d; apply negotiate_code_spec|].
+  split; [apply connect_code_never_panics|intros d; apply connect_code_uses].
+Qed.
+
+Example C13_negotiate_caller_nonvacuous :
+  connect false deserialize ExchErr = CPanic
+  /\ connect false deserialize (RespAnswer None) = CPanic
+  /\ connect_code (RespAnswer None) = CRet None
+  /\ connect_code (RespAnswer (Some (JObj [(bs "sdp", JStr (bs "x")); (bs "type", JStr (bs "answer"))]))) = CRet (Some (mkDesc TAnswer (bs "x"))).
 Proof. repeat split; reflexivity. Qed.
